@@ -199,6 +199,16 @@ def run(ctx):
             fails += 1
             ctx.failing_input('stream API: ' + bad + f' (read size {cfg["readn"]}, reader lag {cfg["lag"]} turns, '
                               f'window {cfg["window"]}, client steps {cfg["steps"]})', cfg)
+    # late readers: more than one window outstanding when the stream reader starts (readexactly / read to EOF / loops)
+    for k in range(120 if ctx.tier == 'thorough' else 24):
+        if fails >= 3:
+            break
+        bad, cfg = sshutil.run(streams_e2e.exact_case(ctx.rng), timeout=300)
+        ctx.note_case(('stream_exact', cfg['window'], cfg['total'], cfg['mode'], cfg['lag']), nontrivial=True)
+        ctx.count('e2e.stream_exact.' + cfg['mode'])
+        if bad:
+            fails += 1
+            ctx.failing_input('stream API: ' + bad, cfg)
     if ctx.cov['distribution'].get('op.R', 0) < 20 or ctx.cov['distribution'].get('op.P', 0) < 20:
         ctx.broke('vacuity:pause-resume', 'too few pause/resume operations generated')
 
@@ -206,6 +216,15 @@ def run(ctx):
 def replay(rp):
     from .. import core
     core.setup_paths()
+    if rp.get('kind') == 'stream_exact':
+        import random
+        rng = random.Random(1)
+        for _ in range(60):
+            bad, cfg = sshutil.run(streams_e2e.exact_case(rng), timeout=300)
+            if bad:
+                print('still fails:', bad, cfg)
+                return 1
+        return 0
     if rp.get('kind') == 'stream_events':
         import random
         rng = random.Random(1)
